@@ -53,6 +53,10 @@ def _strategy(draw):
         grids.append(gi)
     if draw(st.booleans()):
         grids[0] = dict(g0, tz=draw(st.sampled_from(ZONES)))
+    if draw(st.booleans()):
+        # rolling horizon: the same grid moved on by a few steps (same length, zone, frequency, unit) - problems of the
+        # same size with the assets' windows at other places
+        grids.append(dict(grids[0], start=str(tl.point(g0, draw(st.integers(1, 3))))))
     nodes = ["n0", "n1"]
     cx = gen.Cx(g0, nodes, {"p0": [0.0] * T0, "p1": [0.0] * T0})
     assets = []
@@ -71,9 +75,13 @@ def _strategy(draw):
             for x in a["assets"]:
                 if draw(st.booleans()):
                     x["start"], x["end"] = draw(st.integers(-1, 1)), draw(st.integers(T0 - 1, T0 + 1))
+        if a["type"] in ("chp", "plant") and draw(st.integers(0, 2)) == 0:
+            # capacity as the caller's float array, one value per step (same length on the rolled grids)
+            a["max_cap"] = {"vec": [float(a["max_cap"])] * T0}
         if a["type"] in ("chp", "plant") and draw(st.booleans()):
             # start / shutdown profiles without ramp_freq: interpreted in the main time unit of the grid at hand
-            a["min_cap"] = max(a["min_cap"], 0.25 * a["max_cap"])
+            mx_ = a["max_cap"]["vec"][0] if isinstance(a["max_cap"], dict) else a["max_cap"]
+            a["min_cap"] = max(a["min_cap"], 0.25 * mx_)
             a["start_ramp_lower_bounds"] = [0.5 * a["min_cap"]]
             a["start_ramp_upper_bounds"] = [0.5 * a["min_cap"]]
             if draw(st.booleans()):
@@ -105,7 +113,7 @@ def _strategy(draw):
     for _ in range(draw(st.integers(3, 12))):
         op = draw(st.sampled_from(["setup_asset", "setup_asset", "setup_portfolio", "setup_portfolio", "setup_split",
                                    "setup_fix", "optimize", "extract", "reload", "cost_samples", "shortcut", "json", "json",
-                                   "setup_inner"]))
+                                   "setup_inner", "run_split", "run_mono"]))
         steps.append({"op": op, "k": draw(st.integers(0, n - 1)), "g": draw(st.integers(0, ngr - 1)),
                       "frame": draw(st.booleans()), "interval": draw(st.sampled_from(["2h", "3h", "d"]))})
     return {"grid": g0, "grids": grids, "assets": assets, "prices_per_grid": prices, "steps": steps}
@@ -228,10 +236,19 @@ def check(spec):
                 interesting = True
             s.add(sig)
 
-    for i, st_ in enumerate(spec["steps"]):
+    steps = []
+    for st_ in spec["steps"]:
+        if st_["op"] in ("run_split", "run_mono"):
+            # set up (split / monolithic), optimise and extract in one go
+            steps += [dict(st_, op="setup_split" if st_["op"] == "run_split" else "setup_portfolio"), dict(st_, op="optimize"), dict(st_, op="extract")]
+        else:
+            steps.append(st_)
+    for i, st_ in enumerate(steps):
         op, k, gi, frame = st_["op"], st_["k"] % n_assets, st_["g"], st_["frame"]
         what = "step %d %s" % (i, op)
         out.label("op:" + op)
+        if op not in ("optimize", "extract", "json"):
+            last = None      # results are extracted from the objects in the state of the set-up that produced the problem
         if op == "setup_asset":
             p = prices_for(gi, False)
             live = eao_call(live_assets[k].setup_optim_problem, p, live_grids[gi])
@@ -291,13 +308,37 @@ def check(spec):
             if fresh is not None and is_err(fresh):
                 precondition_errors += 1
             if op in ("setup_portfolio", "setup_split") and not is_err(live):
-                last = (live, p, gi)
+                last = (live, p, gi, None, st_["interval"] if op == "setup_split" else None)
         elif op == "optimize" and last is not None:
             r = eao_call(last[0].optimize)
             if not is_err(r) and not isinstance(r, str):
-                last = (last[0], last[1], last[2], r)
-        elif op == "extract" and last is not None and len(last) == 4:
-            eao_call(extract_output, live_pf, last[0], last[3], last[1])
+                last = (last[0], last[1], last[2], r, last[4])
+            else:
+                last = None
+        elif op == "extract" and last is not None and last[3] is not None:
+            # the tables for the same solution vector, from the re-used objects and from fresh ones set up the same way
+            lo = eao_call(extract_output, live_pf, last[0], last[3], last[1])
+            gi_, split_ = last[2], last[4]
+            fpf = Portfolio(build_assets(spec))
+            fg = build.build_grid(spec["grids"][gi_])
+            fp = price_container(spec, gi_, isinstance(last[1], pd.DataFrame))
+            if split_:
+                fop = eao_call(fpf.setup_split_optim_problem, fp, fg, interval_size=split_)
+            else:
+                fop = eao_call(fpf.setup_optim_problem, fp, fg)
+            fo = eao_call(extract_output, fpf, fop, last[3], fp) if not is_err(fop) else fop
+            if is_err(lo) != is_err(fo):
+                out.fail("%s: extract_output %s on the re-used objects, %s on fresh ones"
+                         % (what, "raises " + lo.short() if is_err(lo) else "works", "raises " + fo.short() if is_err(fo) else "works"))
+            elif not is_err(lo):
+                for tab in ("dispatch", "DCF"):
+                    a_, b_ = lo[tab], fo[tab]
+                    if list(a_.columns) != list(b_.columns) or len(a_.index) != len(b_.index) or not (a_.index == b_.index).all():
+                        out.fail("%s: %s table of the re-used objects has other columns / time points than that of fresh objects (first point %s vs %s)"
+                                 % (what, tab, a_.index[0] if len(a_.index) else None, b_.index[0] if len(b_.index) else None))
+                    elif not np.allclose(a_.values.astype(float), b_.values.astype(float), rtol=1e-9, atol=1e-9, equal_nan=True):
+                        out.fail("%s: %s table differs between re-used and fresh objects for the same solution" % (what, tab))
+                out.label("extract_compared")
         elif op == "setup_inner":
             # the portfolio wrapped by a structured asset, used on its own
             ks = [j for j in range(n_assets) if spec["assets"][j]["type"] == "structured" and j not in reloaded]
